@@ -352,7 +352,7 @@ func (d *Decls) fieldHeap(structT types.Type, i int) (name, sort string) {
 
 func (d *Decls) elemHeap(elem types.Type) (name, sort string) {
 	es := d.sortOf(elem)
-	name = "E." + sanitize(es)
+	name = "E." + shortTypeName(elem)
 	sort = "(Array Int (Array Int " + es + "))"
 	return
 }
@@ -367,7 +367,7 @@ func (d *Decls) cellHeap(t types.Type) (name, sort string) {
 func (d *Decls) mapHeaps(m *types.Map) (dom, val, ln string, ks, vs string) {
 	ks = d.sortOf(m.Key())
 	vs = d.sortOf(m.Elem())
-	tag := sanitize(ks) + "." + sanitize(vs)
+	tag := shortTypeName(m.Key()) + "." + shortTypeName(m.Elem())
 	return "MD." + tag, "MV." + tag, "ML." + tag, ks, vs
 }
 
